@@ -66,3 +66,24 @@ Example C05_signals_nonvacuous :
   | Err _ => false
   end = true.
 Proof. vm_compute. auto. Qed.
+
+(* Part 5: single attachment is no longer a side condition.  Since the repair of defect 8.16 (an endpoint named in two
+   connections was accepted: its interface was wired to the first router, the links of the second connection stayed
+   declared without reader / driver) the generator -- and the model -- accept an interface only with exactly one link
+   in each direction, so `single_attachb g c = true` follows from acceptance, and the signal theorem needs two side
+   conditions only. *)
+Theorem C05_model_single_attach :
+  forall d g c, build d = Ok g -> compile d g = Ok c -> single_attachb g c = true.
+Proof. exact single_attachb_holds. Qed.
+Print Assumptions C05_model_single_attach.
+
+Theorem C05_model_signals_2 :
+  forall d g c ri n nt, net_ok d nt ->
+    build d = Ok g -> compile d g = Ok c -> emit c ri = Ok n ->
+    names_sepb g nt = true -> links_typedb g c = true ->
+    forall l, In l (n_links n) -> fst l = net_type nt -> signal_ok n l.
+Proof.
+  intros d g c ri n nt Hnt Hb Hc He H1 H3.
+  exact (model_signal_ok d g c ri n nt Hnt Hb Hc He (names_sepb_ok g nt H1) (compile_single_attach d g c Hb Hc) (links_typedb_ok g c H3)).
+Qed.
+Print Assumptions C05_model_signals_2.
